@@ -192,8 +192,55 @@ Fixpoint top_arr (i : item) : outcome (list item) :=
 Definition as_tag (i : item) : option (N * item) :=       (* cbor.Tag; tags 1..3 decode to time.Time / big.Int *)
   match i with CTag t c => if t <? 4 then None else Some (t, c) | _ => None end.
 
-(* the parser of Cbor.v with enough fuel for every input of that length (w i <= 2 * length (encode i)) *)
-Definition parse_bytes (bs : list N) : option (item * list N) := parse (2 * length bs) bs.
+(* The parser of Cbor.v in a form that can be EVALUATED on hostile inputs: a declared string length is compared
+   with the remaining input before it is turned into a unary number (Cbor.take computes N.to_nat first, which
+   a call-by-value evaluator cannot survive for a declared length of 2^63). C11_Proofs.parse_g_eq proves
+   parse_g = Cbor.parse and parse_seq_g = Cbor.parse_seq on all inputs. *)
+Definition take_g (n : N) (bs : list N) : option (list N * list N) :=
+  if n <=? N.of_nat (length bs) then take (N.to_nat n) bs else None.
+Definition special (bs : list N) : option (item * list N) :=
+  match bs with
+  | 246 :: r => Some (CNull, r)
+  | 244 :: r => Some (CBool false, r)
+  | 245 :: r => Some (CBool true, r)
+  | _ => None
+  end.
+Fixpoint parse_g (fuel : nat) (bs : list N) : option (item * list N) :=
+  match fuel with
+  | O => None
+  | S f =>
+    match special bs with
+    | Some res => Some res
+    | None =>
+      match parse_head bs with
+      | None => None
+      | Some (m, n, r) =>
+        if m =? 0 then Some (CUint n, r)
+        else if m =? 1 then Some (CNint n, r)
+        else if m =? 2 then match take_g n r with Some (a, r') => Some (CBytes a, r') | None => None end
+        else if m =? 3 then match take_g n r with Some (a, r') => Some (CText a, r') | None => None end
+        else if m =? 4 then match parse_seq_g f n r with Some (l, r') => Some (CArr l, r') | None => None end
+        else if m =? 6 then match parse_g f r with Some (i, r') => Some (CTag n i, r') | None => None end
+        else None
+      end
+    end
+  end
+with parse_seq_g (fuel : nat) (n : N) (bs : list N) : option (list item * list N) :=
+  match fuel with
+  | O => None
+  | S f =>
+    if n =? 0 then Some ([], bs)
+    else match parse_g f bs with
+         | None => None
+         | Some (i, r) => match parse_seq_g f (n - 1) r with
+                          | Some (l, r') => Some (i :: l, r')
+                          | None => None
+                          end
+         end
+  end.
+
+(* enough fuel for every input of that length: w i <= 2 * length (encode i) (C11_Proofs.w_le) *)
+Definition parse_bytes (bs : list N) : option (item * list N) := parse_g (2 * length bs) bs.
 
 (* ------------------------------------------------------------------ the fast decoders (cbor.go) *)
 Definition two63 : N := 9223372036854775808.
